@@ -22,16 +22,16 @@ RUNJS = os.path.join(vf.VERIF, "harness", "jsscopes", "run.js")
 JVM = {"JAVA_TOOL_OPTIONS": "-XX:ParallelGCThreads=2 -Xmx3g -Xss64m"}
 ALLREF = '{"plain","tmpl","ntmpl","short","set","dot","optdot","key","method","getter","cls","regex","str"}'
 NSIM_Q, NSIM_T = 8, 150      # simulated traces (every complete successor of every state of a trace is a program)
-SIMCAP_Q, SIMCAP_T = 1000, 20000
+SIMCAP_Q, SIMCAP_T = 1000, 10000
 NAMES = {"NamesA": ["a"], "NamesAB": ["a", "b"], "NamesABC": ["a", "b", "c"]}
 
 
-def _cfg(names, declf, dstrf, reff, topreff, fnf, defaults, noparam, others, maxitems, maxdepth, impl, invariants):
-    return ("SPECIFICATION Spec\nCONSTANTS\n  Names <- %s\n  DeclF = %s\n  DstrF = %s\n  RefF = %s\n  TopRefF = %s\n  FnF = %s\n"
+def _cfg(names, declf, dstrf, reff, topreff, fnf, defaults, noparam, others, maxitems, maxdepth, impl, invariants, topdecl=True):
+    tf = lambda b: "TRUE" if b else "FALSE"
+    return ("SPECIFICATION Spec\nCONSTANTS\n  Names <- %s\n  DeclF = %s\n  DstrF = %s\n  RefF = %s\n  TopRefF = %s\n  TopDecl = %s\n  FnF = %s\n"
             "  Defaults = %s\n  NoParam = %s\n  Others = %s\n  MaxItems = %d\n  MaxDepth = %d\n  Impl = \"%s\"\n"
             "INVARIANTS %s\nCHECK_DEADLOCK FALSE\n"
-            % (names, declf, dstrf, reff, topreff, fnf, "TRUE" if defaults else "FALSE", "TRUE" if noparam else "FALSE", others,
-               maxitems, maxdepth, impl, invariants))
+            % (names, declf, dstrf, reff, topreff, tf(topdecl), fnf, tf(defaults), tf(noparam), others, maxitems, maxdepth, impl, invariants))
 
 
 def _tok(k, t):
@@ -354,8 +354,9 @@ def run():
                                      5 if thorough else 4, 3 if thorough else 2, "careful", inv), {}),
             # exhaustive: a function with a parameter, every way of mentioning a name inside it, evaluated mentions outside it
             "forms": ("NamesAB", (_cfg("NamesAB", '{"const"}', '{"obj","objdef","objkey","arr"}', ALLREF, top, '{"iife","arrow"}', False, False,
-                                       '{"catch","for"}', 4, 1, "careful", inv) if thorough else
-                                  _cfg("NamesAB", "{}", "{}", ALLREF, '{"plain","set"}', '{"iife"}', False, False, "{}", 4, 1, "careful", inv)), {}),
+                                       '{"catch","for"}', 4, 1, "careful", inv, topdecl=False) if thorough else
+                                  _cfg("NamesAB", "{}", '{"objdef","objkey"}', ALLREF, '{"plain","set"}', '{"iife"}', False, False, "{}", 4, 1,
+                                       "careful", inv, topdecl=False)), {}),
             # long random programs over everything
             "sim": ("NamesABC", _cfg("NamesABC", '{"var","let","const"}', '{"obj","objdef","objkey","arr"}', ALLREF, ALLREF, '{"decl","iife","arrow"}',
                                      True, True, '{"blk","catch","for"}', 14, 3, "careful", inv),
@@ -378,7 +379,7 @@ def run():
             name, (_names, cfg, kw) = item
             kw = dict(kw)
             kw.setdefault("workers", (4 if thorough else 2) if name in ("core", "forms", "dflt") else 1)
-            r = vf.tlc(SPEC, "JsScopes_Gen", name + ".cfg", sd, timeout=5400 if thorough else 2400, files={name + ".cfg": cfg}, env=JVM, **kw)
+            r = vf.tlc(SPEC, "JsScopes_Gen", name + ".cfg", sd, timeout=9000 if thorough else 2400, files={name + ".cfg": cfg}, env=JVM, **kw)
             vf.log("tlc %-6s %6.1fs  %d states, %d records" % (name, r.wall, r.distinct, len(r.records)))
             return name, r
 
@@ -386,7 +387,7 @@ def run():
             res = dict(ex.map(one, jobs.items()))
 
         what = {"core": "MC: every program over {a,b} x var/let/plain reference/function/block up to %d items" % (5 if thorough else 4),
-                "forms": "MC: every program of up to 4 items over {a,b}: a function (thorough: + arrow, declaration, defaults, catch, for-of, destructuring) x every reference form inside x evaluated references outside",
+                "forms": "MC: every program of up to 4 items over {a,b}: a function (thorough: + arrow, catch, for-of, const, all destructuring forms) x every reference form and {k: n} / {n = v} patterns inside x evaluated references outside",
                 "dflt": "MC: every program of up to 4 items over {a,b}: function declaration / expression / arrow whose parameter defaults to the other name",
                 "scoped": "MC: the binding-based renamer satisfies the contract"}
         for nm, w in what.items():
@@ -433,12 +434,12 @@ def run():
         if len(progs) - nsim < 500 or nsim < 30:
             raise vf.NoVerdict("generators produced too little (%d exhaustive, %d simulated)" % (len(progs) - nsim, nsim))
         files = _files()
-        served = sorted(rnd.sample(range(len(progs)), min(len(progs), 3000 if thorough else 400)))
+        served = sorted(rnd.sample(range(len(progs)), min(len(progs), 2000 if thorough else 400)))
         gen, fl, genb, flb = _drive(sd, progs, files, served)
         vf.log("drivers done at %.0fs: %d programs x 2 modes (%d also served), %d shipped scripts x 2 modes x 2 levels"
                % (time.time() - chk.t0, len(progs), len(served), len(files)))
 
-        to = 5400 if thorough else 2400
+        to = 9000 if thorough else 2400
         where = [(i // 2, r) for i, r in enumerate(gen)] + [(served[i % len(served)], r) for i, r in enumerate(genb)]
         with ThreadPoolExecutor(max_workers=2) as ex:
             fj = ex.submit(_judge, chk, sd, _recs(gen + genb), "gen", 8 if thorough else 4, to)
